@@ -834,12 +834,17 @@ class DocTest:
                 except KeyboardInterrupt:  # nocover
                     raise
                 except Exception:
-                    raise
-                    # self.exc_info = sys.exc_info()
-                    # ex_type, ex_value, tb = self.exc_info
-                    # self.failed_tb_lineno = tb.tb_lineno
-                    # if on_error == 'raise':
-                    #     raise
+                    # Errors only found when the part is compiled (e.g. a
+                    # 'return' outside of a function) are failures of this
+                    # doctest like any error raised while it runs.
+                    self.exc_info = sys.exc_info()
+                    ex_type, ex_value, tb = self.exc_info
+                    self.failed_tb_lineno = getattr(ex_value, 'lineno', None) or 1
+                    self.logged_evals[partx] = got_eval
+                    self.logged_stdout[partx] = ''
+                    if on_error == 'raise':
+                        raise
+                    break
                 try:
                     # Execute the doctest code
                     try:
@@ -1324,7 +1329,13 @@ class DocTest:
                         if self._partfilename is not None and self._partfilename in line:
                             # Intercept the line corresponding to the doctest
                             tbparts = line.split(',')
-                            tb_lineno = int(tbparts[-2].strip().split()[1])
+                            try:
+                                tb_lineno = int(tbparts[-2].strip().split()[1])
+                            except (IndexError, ValueError):
+                                # Not a '..., line N, in <name>' frame entry
+                                # (e.g. the location entry of a SyntaxError).
+                                new_tblines.append(line)
+                                continue
                             # modify the line number to match the doctest
                             linepart = tbparts[-2].split(' ')
 
